@@ -408,6 +408,7 @@ Section Inv.
 
   Lemma cnt_window q row c : cnt e (Soct e c row) q = countb q (ewin row c).
   Proof.
+    clear Ha HR HD Hsw HSL Hcols Hrows HW.
     unfold ewin, window_c, cnt. rewrite countb_map, countb_filter. apply countb_ext.
     intros [y x] Hin. apply coords_In in Hin. unfold pixq, in_window, Soct, in_img. cbn [fst snd].
     change (msk2 (e_mask e) y x) with (msk e y x). change (dat2 (e_data e) y x) with (dat e y x).
@@ -772,4 +773,104 @@ Section Inv.
       destruct H1 as (R2 & S2 & _ & _). unfold Q. cbn [fst snd]. split; [exact R2|]. split; [exact S2|].
       split; [destruct Hout0 as [[L0 _]|[-> ->]]; cbn [length]; lia|intros; lia].
   Qed.
+  (* kernel_inv: the two loops of c_median_filter *)
+  Theorem kernel_rows :
+    let out := rev (snd (fold_left (do_row e) (zrange (- e_sweep e) (e_rows e)) (st0 e, []))) in
+    Z.of_nat (length out) = e_rows e /\ forall i, 0 <= i < e_rows e -> RowGood i (nth (Z.to_nat i) out []).
+  Proof.
+    cbv zeta. rewrite Hsw. unfold zrange.
+    set (P := fun r (so : st * list (list Z)) => (r = - e_R e - 1 /\ so = (st0 e, [])) \/ (- e_R e <= r /\ Q r so)).
+    assert (H : P (- e_R e + Z.of_nat (Z.to_nat (e_rows e - - e_R e)) - 1)
+                  (fold_left (do_row e) (zrange_n (- e_R e) (Z.to_nat (e_rows e - - e_R e))) (st0 e, []))).
+    { apply (fold_zrange_inv P).
+      - left. split; [lia|reflexivity].
+      - intros c so Hc [[E1 E2]|[G HQ]]; right; (split; [lia|]); apply do_row_inv; try lia.
+        + left. split; [lia|exact E2].
+        + right. split; [lia|exact HQ]. }
+    replace (- e_R e + Z.of_nat (Z.to_nat (e_rows e - - e_R e)) - 1) with (e_rows e - 1) in H by lia.
+    destruct H as [[E _]|[_ (_ & _ & [LO GO])]]; [lia|].
+    set (out := snd (fold_left (do_row e) (zrange_n (- e_R e) (Z.to_nat (e_rows e - - e_R e))) (st0 e, []))) in *.
+    split; [rewrite rev_length; lia|]. intros i Hi. rewrite rev_nth by lia.
+    replace (length out - S (Z.to_nat i))%nat with (Z.to_nat (e_rows e - 1 - i)) by lia. apply GO. lia.
+  Qed.
 End Inv.
+
+(* ------------------------------------------------------------------ C07_sliding_invariant *)
+
+Lemma filter_true {A} (l : list A) : filter (fun _ => true) l = l.
+Proof. induction l as [|a l IH]; [reflexivity|]. cbn [filter]. f_equal. exact IH. Qed.
+
+Definition WinSmall (mask : list (list bool)) (rows cols radius : Z) : Prop :=
+  forall row c, Z.of_nat (length (filter (in_window mask (oct_R radius) (oct_a2 radius) row c) (coords rows cols))) < 65536.
+
+Definition Masked8 (data : list (list Z)) (mask : list (list bool)) : Prop :=
+  forall y x, 0 <= y < img_rows data -> 0 <= x < img_cols data -> msk2 mask y x = true -> 0 <= dat2 data y x < 256.
+
+Theorem sliding_invariant data mask radius percent :
+  1 <= radius -> 0 <= percent <= 100 -> Masked8 data mask -> WinSmall mask (img_rows data) (img_cols data) radius ->
+  let out := kernel Fixed data mask radius percent in
+  MedianSpec data mask radius percent out /\
+  Z.of_nat (length out) = img_rows data /\ Forall (fun r => Z.of_nat (length r) = img_cols data) out.
+Proof.
+  intros Hr Hp HM HWs. cbv zeta.
+  set (e := mk_env Fixed data mask radius percent).
+  pose proof (geom_octagon radius Hr) as G. cbv zeta in G. destruct G as (G1 & G2 & _).
+  assert (Ha : 1 <= e_a2 e) by exact G1. assert (HR : e_a2 e < e_R e) by exact G2.
+  assert (HD : Data8 e).
+  { intros x y H. unfold in_img in H. apply andb_true_iff in H. destruct H as [H Hm].
+    unfold e in H. cbn [e_rows e_cols mk_env] in H.
+    apply (HM y x); unfold img_rows, img_cols; try lia. exact Hm. }
+  assert (HW : forall c row, hN e (Soct e c row) < M16).
+  { intros c row. unfold hN. rewrite cnt_window. unfold ewin, window_c, countb.
+    rewrite filter_true, map_length. apply (HWs row c). }
+  pose proof (kernel_rows e Ha HR HD eq_refl eq_refl ltac:(cbn; lia) ltac:(cbn; lia) HW Hp) as K. cbv zeta in K.
+  fold (kernel Fixed data mask radius percent) in K.
+  change (rev (snd (fold_left (do_row e) (zrange (- e_sweep e) (e_rows e)) (st0 e, [])))) with (kernel Fixed data mask radius percent) in K.
+  destruct K as [KL KG]. split; [|split; [exact KL|]].
+  - intros i j Hi Hj. cbv zeta. intros Hne.
+    destruct (KG i Hi) as [_ GJ]. specialize (GJ j Hj). unfold Good in GJ.
+    change (ewin e i j) with (window data mask radius i j) in GJ.
+    unfold dat2, getz. apply GJ. exact Hne.
+  - apply Forall_forall. intros r Hin. apply (In_nth _ _ []) in Hin. destruct Hin as [n [Hn E]].
+    destruct (KG (Z.of_nat n) ltac:(change (e_rows e) with (img_rows data) in KL; unfold img_rows in *; cbn [e_rows e mk_env] in *; lia)) as [LR _].
+    rewrite Nat2Z.id, E in LR. exact LR.
+Qed.
+
+(* the code as written, radius >= 2 *)
+Corollary sliding_invariant_asis data mask radius percent :
+  2 <= radius -> 0 <= percent <= 100 -> Masked8 data mask -> WinSmall mask (img_rows data) (img_cols data) radius ->
+  MedianSpec data mask radius percent (kernel AsIs data mask radius percent).
+Proof.
+  intros Hr Hp HM HWs.
+  assert (E : kernel AsIs data mask radius percent = kernel Fixed data mask radius percent).
+  { unfold kernel, mk_env. destruct (geom_octagon radius ltac:(lia)) as (_ & _ & _ & E & _).
+    cbv zeta in E. rewrite (E Hr). reflexivity. }
+  rewrite E. apply (sliding_invariant data mask radius percent ltac:(lia) Hp HM HWs).
+Qed.
+
+(* an image with fewer than 65536 pixels has small windows whatever the radius *)
+Lemma coords_length rows cols : length (coords rows cols) = (Z.to_nat rows * Z.to_nat cols)%nat.
+Proof.
+  unfold coords, zrange. replace (rows - 0) with rows by lia. replace (cols - 0) with cols by lia.
+  generalize 0 at 2. induction (Z.to_nat rows) as [|n IH]; intros lo; cbn [zrange_n flat_map]; [reflexivity|].
+  rewrite app_length, map_length, zrange_n_length, IH. lia.
+Qed.
+
+Lemma WinSmall_of_small_image mask rows cols radius : 0 <= rows -> 0 <= cols -> rows * cols < 65536 -> WinSmall mask rows cols radius.
+Proof.
+  intros Hr Hc H row c.
+  pose proof (filter_length_le (in_window mask (oct_R radius) (oct_a2 radius) row c) (fun _ => true) (coords rows cols) ltac:(auto)) as X.
+  assert (Y : length (filter (fun _ : Z * Z => true) (coords rows cols)) = length (coords rows cols)).
+  { generalize (coords rows cols). intros l. induction l as [|a l IH]; [reflexivity|]. cbn [filter length]. f_equal. exact IH. }
+  rewrite Y, coords_length in X. nia.
+Qed.
+
+Example sliding_invariant_ex :
+  Masked8 [[3; 200]; [17; 999]] [[true; true]; [true; false]] /\ WinSmall [[true; true]; [true; false]] 2 2 3 /\
+  kernel AsIs [[3; 200]; [17; 999]] [[true; true]; [true; false]] 3 50 = [[17; 17]; [17; 17]].
+Proof.
+  split; [|split; [apply WinSmall_of_small_image; lia|vm_compute; reflexivity]].
+  intros y x Hy Hx Hm. unfold img_rows, img_cols in *. cbn in Hy, Hx.
+  assert (Cy : y = 0 \/ y = 1) by lia. assert (Cx : x = 0 \/ x = 1) by lia.
+  destruct Cy, Cx; subst; vm_compute in Hm; try discriminate; vm_compute; split; congruence.
+Qed.
